@@ -150,6 +150,10 @@ Theorem C05_exact_asset_binds : forall sp a b g, bap_verify sp a g = true -> bap
 Proof. exact bap_binds. Qed.
 Theorem C05_exact_asset_complete : forall a abf, exists sp, bap_new a abf = Some sp /\ bap_verify sp a (asset_gen a abf) = true.
 Proof. exact bap_complete. Qed.
+(* the exact-value clause of C09 (Model/PsetBlind.v blind_value_proof_verify) IS the translated condition on the proofs blind_value_proof makes *)
+Theorem C05_exact_value_is_pset_clause : forall rp v gen c, 0 <= v <= U64_MAX ->
+  bvp_verify (mkRR rp (rp_value rp) (rp_value rp)) (Z.to_N v) gen c = PsetBlind.blind_value_proof_verify rp v gen c.
+Proof. exact bvp_verify_is_pset_clause. Qed.
 (* non-vacuity: a proof over [1000, 1000 + 2^16) for the committed value 1500 is made, verifies as a range proof, and is refused as an
    exact proof for 1000 (its minimum), for 1500 (its value) and for anything else *)
 Example C05_example_wide :
@@ -196,3 +200,4 @@ Print Assumptions C05_exact_value_wide_refused.
 Print Assumptions C05_exact_value_exp0_refused.
 Print Assumptions C05_exact_value_complete.
 Print Assumptions C05_exact_asset_sound.
+Print Assumptions C05_exact_value_is_pset_clause.
